@@ -469,8 +469,9 @@ pub fn comments_in_patterns(o: &mut Out) {
       }
       let text = n.text().to_string();
       let Ok(pat) = Pattern::try_new(&text, src.lang) else { continue };
-      // the pattern must match its own node (else the text is no faithful pattern of it)
-      if pat.clone().with_strictness(MatchStrictness::Cst).match_node(n.clone()).is_none() {
+      // the text must be a pattern of its own node at all — judged at the level that ignores
+      // comments, so that nothing about comments enters the guard
+      if pat.clone().with_strictness(MatchStrictness::Relaxed).match_node(n.clone()).is_none() {
         continue;
       }
       here += 1;
